@@ -264,6 +264,12 @@ Spl(g, e, line) ==
          r == G.cur
      IN /\ Has("C12") => Chk("C12.NonlinearOnMultiRefused", line,
                                (e.threw # "") = (e.nlin = 0 /\ FinalDir(G.ops) # "single"))
+        \* a history of requests on one eroder: each one refused exactly when it asks for n # 1 on a
+        \* multiple-direction graph, whatever was requested (and refused) before
+        /\ (Has("C12") /\ "probe" \in DOMAIN e) =>
+             Chk("C12.NonlinearOnMultiRefusedEveryTime", line,
+                 \A k \in DOMAIN e.probe : e.probe[k][1] \in {0, 1}
+                      /\ (e.probe[k][2] = 1) = (e.probe[k][1] = 0 /\ FinalDir(G.ops) # "single"))
         /\ (e.threw = "" /\ Has("C12")) =>
              /\ Chk("C12.Finite", line, SplFinite(x, e))
              /\ Chk("C12.TerminalsZero", line, SplTerminalsZero(x, r, e))
